@@ -158,6 +158,7 @@ type c02Setting struct {
 type c02Cfg struct {
 	rev      int // negotiated revision
 	clientPV int // Options.ProtocolVersion
+	srvRev   int // the revision the server reports when it is newer than the client's (0: the server reports rev)
 	comp     ch.Compression
 	level    int
 	settings []c02Setting
@@ -437,6 +438,14 @@ func c02GenCfg(r *rand.Rand) *c02Cfg {
 	switch r.Intn(3) {
 	case 0:
 		k.clientPV = k.rev
+		if r.Intn(2) == 0 {
+			// the CLIENT is the older side (Options.ProtocolVersion pinned): the negotiated revision is the client's,
+			// whatever the server could do
+			k.srvRev = k.rev + []int{1, 2, 7, 30, 60, proto.Version - k.rev + 5}[r.Intn(6)]
+			if k.srvRev <= k.rev {
+				k.srvRev = k.rev + 1
+			}
+		}
 	case 1:
 		k.clientPV = k.rev + r.Intn(30)
 	default:
@@ -495,6 +504,9 @@ func c02Connect(k *c02Cfg) *c02Run {
 	conn := c02NewConn(k.addr)
 	var b proto.Buffer
 	hello := proto.ServerHello{Name: "scripted", Major: 23, Minor: 8, Revision: k.rev, Timezone: "UTC", DisplayName: "h", Patch: 1}
+	if k.srvRev > k.rev {
+		hello.Revision = k.srvRev
+	}
 	hello.EncodeAware(&b, k.clientPV)
 	conn.Serve(b.Buf)
 	opt := ch.Options{Compression: k.comp, CompressionLevel: ch.CompressionLevel(k.level), ClientName: k.name, QuotaKey: k.quota,
